@@ -47,7 +47,7 @@ SWAP_MAP = dict(jobId="jobId", eventId="timestamp", timestamp="eventId",
                 previousEventIds="previousEventIds",
                 applicationName="jobName", jobName="workflow",
                 eventType="applicationName")
-WF = ("wf one", "wf2")
+WF = ("wf one", "wf2", "shop.checkout", "shop.refund v2")
 
 
 def all_trees():
@@ -65,6 +65,12 @@ def trace_sets(tier):
     for s in w1:
         for t in second:
             out.append({"wf one": list(s), "wf2": [t]})
+    # workflow names that share everything up to a dot (names become file
+    # and directory names)
+    out += [{"shop.checkout": [a], "shop.refund v2": [b]}
+            for a in names[:3] for b in second]
+    out += [{"wf one": ["r[a]"], "shop.checkout": ["r[a;b]"],
+             "shop.refund v2": ["r[a|b]", "r"]}]
     # many traces per workflow (file numbering and paging beyond one digit)
     cyc = lambda n, o=0: [names[(i * 3 + o) % len(names)]  # noqa: E731
                           for i in range(n)]
